@@ -10,7 +10,7 @@ import (
 	"verif/harness/spec"
 )
 
-const ruleC20 = "C01 paths (weight on filters with every comparator kind, '..', wildcards, functions) on generated documents in which a random non-empty subset of leaves and some sub-containers is replaced by values of 22 non-JSON Go types (struct{}, structs, pointers, typed nil, typed/named maps and slices, arrays, ints, float32, complex, func, chan, []byte, error, Duration, map[interface{}]interface{}). " +
+const ruleC20 = "C01 paths (weight on filters with every comparator kind, '..', wildcards, functions) on generated documents in which a random non-empty subset of leaves and some sub-containers is replaced by values of 31 non-JSON Go types (struct{}, structs, pointers, typed nil, typed/named maps and slices, nil maps/slices, arrays, ints, float32, complex, func, chan, []byte, json.RawMessage, error, Duration, map[interface{}]interface{}, defined types over float64/string/bool). " +
 	"Oracle: SPEC with the rule 'anything that is not map[string]interface{} / []interface{} is a leaf': returned by identity, exists, deep-equal per reflect.DeepEqual in path-vs-path ==, passed to functions unchanged, navigation into it = ErrorTypeUnmatched naming its Go type, literal/ordering/regex comparisons do not match; no panic. " +
 	"Non-trivial: >=1 opaque value is examined by a step, an operand or a function (measured by SPEC). Distinct = distinct (path, document)."
 
